@@ -219,10 +219,12 @@ instance : DecidablePred Ast.WF := fun t =>
   | .cmp1 .. | .cmp2 .. | .call .. | .quantity .. | .convert .. | .array _ | .compr .. | .assign .. =>
       isFalse (fun h => h)
 
+def toTokens (ts : List PTok) : List Token := ts.map PTok.toToken
+
 /-- Minimal-parentheses text of a program tree, as tokens. -/
-def renderMin (t : Ast) : List Token := (rNat false t).map PTok.toToken
+def renderMin (t : Ast) : List Token := toTokens (rNat false t)
 
 /-- Fully parenthesised text of a program tree, as tokens. -/
-def renderFull (t : Ast) : List Token := (rNat true t).map PTok.toToken
+def renderFull (t : Ast) : List Token := toTokens (rNat true t)
 
 end KaVerif.Parser
